@@ -173,6 +173,11 @@ func Arg[T any](t *FT, pos, i int) T {
 	case ty.Kind() == reflect.String && i == 3:
 		v.SetString("BB")
 		return asT[T](v)
+	case ty.Kind() == reflect.String && (i == 4 || i == 5):
+		// vectors 4/5: a NUL byte on either side of a parameter boundary ("a\x00","b") vs ("a","\x00b")
+		s := [2][2]string{{"a\x00", "a"}, {"b", "\x00b"}}[pos%2][i-4]
+		v.SetString(s)
+		return asT[T](v)
 	case ty.Kind() == reflect.Float64 && i == 4:
 		v.SetFloat(0)
 		return asT[T](v)
